@@ -1,0 +1,233 @@
+//go:build verif
+// +build verif
+
+// Contracts for deductive verification of package mysql (comment-only; compiled only
+// with the build tag "verif"). Grammar: /verif/DESIGN.md, Appendix B. The verifier
+// (/verif/govc) reads the //@ lines, generates verification conditions from the SSA of
+// the functions named here and discharges them with SMT solvers.
+
+package mysql
+
+// ---------------------------------------------------------------- C12 spec functions
+// MySQL "length-encoded integer" (protocol document), written once.
+//@ pure encLen(i uint64) int = ite(i < 251, 1, ite(i < 1<<16, 3, ite(i < 1<<24, 4, 9)))
+//@ pure decLen(b byte) int   = ite(b == 0xfc, 3, ite(b == 0xfd, 4, ite(b == 0xfe, 9, 1)))
+//@ pure le2(d []byte, p int) uint64 = uint64(d[p]) | uint64(d[p+1])<<8
+//@ pure le3(d []byte, p int) uint64 = uint64(d[p]) | uint64(d[p+1])<<8 | uint64(d[p+2])<<16
+//@ pure le4(d []byte, p int) uint64 = uint64(d[p]) | uint64(d[p+1])<<8 | uint64(d[p+2])<<16 | uint64(d[p+3])<<24
+//@ pure le8(d []byte, p int) uint64 = uint64(d[p]) | uint64(d[p+1])<<8 | uint64(d[p+2])<<16 | uint64(d[p+3])<<24 |
+//@        uint64(d[p+4])<<32 | uint64(d[p+5])<<40 | uint64(d[p+6])<<48 | uint64(d[p+7])<<56
+//@ pure decVal(d []byte, p int) uint64 = ite(d[p] == 0xfb, 0, ite(d[p] == 0xfc, le2(d, p+1),
+//@        ite(d[p] == 0xfd, le3(d, p+1), ite(d[p] == 0xfe, le8(d, p+1), uint64(d[p])))))
+// readOK: the encoded integer starting at p lies inside d
+//@ pure readOK(d []byte, p int) bool = p < len(d) && p + decLen(d[p]) <= len(d)
+
+//@ property C12: LenEncIntSize, WriteLenEncInt, AppendLenEncInt, AppendLenEncStringBytes, WriteLenEncString,
+//@   WriteByte, WriteUint16, WriteUint32, WriteUint64, ReadByte, ReadUint16, ReadUint32, ReadUint64,
+//@   ReadLenEncInt, ReadBytes, ReadBytesCopy, ReadNullString, ReadNullByte,
+//@   readLenEncString, skipLenEncString, ReadLenEncStringAsBytes, writeEOFString
+
+// ---------------------------------------------------------------- trusted standard library
+//@ trusted bytes.IndexByte
+//@   params b, c
+//@   pure-call
+//@   ensures (ret0 == -1 && forall(k, 0, len(b), b[k] != c)) || (0 <= ret0 && ret0 < len(b) && b[ret0] == c && forall(k, 0, ret0, b[k] != c))
+//@ trusted (encoding/binary.littleEndian).Uint16
+//@   params recv, b
+//@   pure-call
+//@   may-panic when len(b) < 2
+//@   ensures uint64(ret0) == le2(b, 0)
+//@ trusted (encoding/binary.littleEndian).Uint32
+//@   params recv, b
+//@   pure-call
+//@   may-panic when len(b) < 4
+//@   ensures uint64(ret0) == le4(b, 0)
+//@ trusted (encoding/binary.littleEndian).Uint64
+//@   params recv, b
+//@   pure-call
+//@   may-panic when len(b) < 8
+//@   ensures ret0 == le8(b, 0)
+
+// ---------------------------------------------------------------- C12 encoders
+//@ func LenEncIntSize
+//@   mode bv
+//@   assigns \nothing
+//@   ensures ret0 == encLen(i)
+
+//@ func WriteLenEncInt
+//@   mode bv
+//@   requires 0 <= pos && pos <= len(data) - encLen(i) && encLen(i) <= len(data)
+//@   assigns data[pos : pos+encLen(i)]
+//@   ensures case next:   ret0 == pos + encLen(i)
+//@   ensures case len:    decLen(data[pos]) == encLen(i)
+//@   ensures case value:  decVal(data, pos) == i
+//@   ensures case notnull: data[pos] != 0xfb
+
+//@ func AppendLenEncInt
+//@   mode bv
+//@   assigns data[len(data):cap(data)]
+//@   ensures case len:  len(ret0) == len(data) + encLen(i)
+//@   ensures case prefix: forall(k, 0, len(data), ret0[k] == old(data[k]))
+//@   ensures case enc:    decLen(ret0[len(data)]) == encLen(i) && decVal(ret0, len(data)) == i && ret0[len(data)] != 0xfb
+
+// ---------------------------------------------------------------- C12 decoders
+// For EVERY data and EVERY pos >= 0 (all call sites pass non-negative positions):
+// no read outside the input, and ok ==> the consumed bytes lie inside data.
+
+//@ func ReadByte
+//@   mode bv
+//@   requires posOK(pos)
+//@   assigns \nothing
+//@   ensures ret2 <==> pos < len(data)
+//@   ensures ret2 ==> ret0 == data[pos] && ret1 == pos+1
+//@   ensures !ret2 ==> ret1 == 0
+
+//@ func ReadLenEncInt
+//@   mode bv
+//@   requires posOK(pos)
+//@   assigns \nothing
+//@   ensures case ok:     ret3 <==> readOK(data, pos)
+//@   ensures case fail:   !ret3 ==> (ret0 == 0 && ret1 == 0 && !ret2)
+//@   ensures case next:   ret3 ==> ret1 == pos + decLen(data[pos])
+//@   ensures case null:   ret3 ==> (ret2 <==> data[pos] == 0xfb)
+//@   ensures case value:  ret3 ==> ret0 == decVal(data, pos)
+
+// positions handed to the decoders are sums of in-bounds positions and small constants
+//@ pure posOK(pos int) bool = 0 <= pos && pos < 1<<62
+
+//@ func ReadUint16
+//@   mode bv
+//@   requires posOK(pos)
+//@   assigns \nothing
+//@   ensures ret2 <==> pos+2 <= len(data)
+//@   ensures ret2 ==> uint64(ret0) == le2(data, pos) && ret1 == pos+2
+//@   ensures !ret2 ==> ret1 == 0 && ret0 == 0
+
+//@ func ReadUint32
+//@   mode bv
+//@   requires posOK(pos)
+//@   assigns \nothing
+//@   ensures ret2 <==> pos+4 <= len(data)
+//@   ensures ret2 ==> uint64(ret0) == le4(data, pos) && ret1 == pos+4
+//@   ensures !ret2 ==> ret1 == 0 && ret0 == 0
+
+//@ func ReadUint64
+//@   mode bv
+//@   requires posOK(pos)
+//@   assigns \nothing
+//@   ensures ret2 <==> pos+8 <= len(data)
+//@   ensures ret2 ==> ret0 == le8(data, pos) && ret1 == pos+8
+//@   ensures !ret2 ==> ret1 == 0 && ret0 == 0
+
+// size comes from the wire (int(l) of a length-encoded integer): every int is allowed
+//@ func ReadBytes
+//@   mode bv
+//@   requires posOK(pos)
+//@   assigns \nothing
+//@   ensures case ok:    ret2 <==> (0 <= size && pos <= len(data) && size <= len(data) - pos)
+//@   ensures case value: ret2 ==> ret0 == data[pos : pos+size] && ret1 == pos + size
+//@   ensures case fail:  !ret2 ==> ret1 == 0 && ret0 == nil
+
+//@ func ReadBytesCopy
+//@   mode bv
+//@   requires posOK(pos)
+//@   assigns \nothing
+//@   ensures case ok:    ret2 <==> (0 <= size && pos <= len(data) && size <= len(data) - pos)
+//@   ensures case value: ret2 ==> len(ret0) == size && ret1 == pos+size && forall(k, 0, size, ret0[k] == data[pos+k]) && fresh(ret0)
+//@   ensures case fail:  !ret2 ==> ret1 == 0 && ret0 == nil
+
+//@ func ReadNullString
+//@   mode bv
+//@   requires posOK(pos)
+//@   assigns \nothing
+//@   ensures case ok:    ret2 <==> exists(k, pos, len(data), data[k] == 0)
+//@   ensures case value: ret2 ==> pos < ret1 && ret1 <= len(data) && data[ret1-1] == 0 && forall(k, pos, ret1-1, data[k] != 0)
+//@                        && len(ret0) == ret1-1-pos && forall(k, 0, ret1-1-pos, ret0[k] == data[pos+k])
+//@   ensures case fail:  !ret2 ==> ret1 == 0 && len(ret0) == 0
+
+//@ func ReadNullByte
+//@   mode bv
+//@   requires posOK(pos)
+//@   assigns \nothing
+//@   ensures case ok:    ret2 <==> exists(k, pos, len(data), data[k] == 0)
+//@   ensures case value: ret2 ==> pos < ret1 && ret1 <= len(data) && data[ret1-1] == 0 && forall(k, pos, ret1-1, data[k] != 0)
+//@                        && ret0 == data[pos : ret1-1]
+//@   ensures case fail:  !ret2 ==> ret1 == 0 && len(ret0) == 0
+
+// the string part of a length-encoded string lies inside data
+//@ pure strOK(d []byte, p int) bool = readOK(d, p) && decVal(d, p) <= uint64(len(d) - p - decLen(d[p]))
+
+//@ func readLenEncString
+//@   mode bv
+//@   requires posOK(pos)
+//@   assigns \nothing
+//@   ensures case ok:    ret2 <==> strOK(data, pos)
+//@   ensures case value: ret2 ==> ret1 == pos + decLen(data[pos]) + int(decVal(data, pos)) && ret1 <= len(data)
+//@                        && len(ret0) == int(decVal(data, pos))
+//@                        && forall(k, 0, len(ret0), ret0[k] == data[pos + decLen(data[pos]) + k])
+//@   ensures case fail:  !ret2 ==> ret1 == 0 && len(ret0) == 0
+
+//@ func skipLenEncString
+//@   mode bv
+//@   requires posOK(pos)
+//@   assigns \nothing
+//@   ensures case ok:    ret1 <==> strOK(data, pos)
+//@   ensures case value: ret1 ==> ret0 == pos + decLen(data[pos]) + int(decVal(data, pos)) && ret0 <= len(data)
+//@   ensures case fail:  !ret1 ==> ret0 == 0
+
+//@ func ReadLenEncStringAsBytes
+//@   mode bv
+//@   requires posOK(pos)
+//@   assigns \nothing
+//@   ensures case ok:    ret3 <==> strOK(data, pos)
+//@   ensures case value: ret3 ==> ret1 == pos + decLen(data[pos]) + int(decVal(data, pos)) && ret1 <= len(data)
+//@                        && ret0 == data[pos + decLen(data[pos]) : ret1]
+//@   ensures case null:  ret3 ==> (ret2 <==> data[pos] == 0xfb)
+//@   ensures case fail:  !ret3 ==> ret1 == 0 && ret0 == nil
+
+// ---------------------------------------------------------------- C12 fixed-width writers
+//@ func WriteByte
+//@   mode bv
+//@   requires 0 <= pos && pos < len(data)
+//@   assigns data[pos : pos+1]
+//@   ensures ret0 == pos+1 && data[pos] == value
+//@ func WriteUint16
+//@   mode bv
+//@   requires 0 <= pos && pos <= len(data) - 2 && 2 <= len(data)
+//@   assigns data[pos : pos+2]
+//@   ensures ret0 == pos+2 && le2(data, pos) == uint64(value)
+//@ func WriteUint32
+//@   mode bv
+//@   requires 0 <= pos && pos <= len(data) - 4 && 4 <= len(data)
+//@   assigns data[pos : pos+4]
+//@   ensures ret0 == pos+4 && le4(data, pos) == uint64(value)
+//@ func WriteUint64
+//@   mode bv
+//@   requires 0 <= pos && pos <= len(data) - 8 && 8 <= len(data)
+//@   assigns data[pos : pos+8]
+//@   ensures ret0 == pos+8 && le8(data, pos) == value
+
+//@ func writeEOFString
+//@   mode bv
+//@   requires 0 <= pos && pos <= len(data) && len(value) <= len(data) - pos
+//@   assigns data[pos : pos+len(value)]
+//@   ensures ret0 == pos + len(value)
+//@   ensures forall(k, 0, len(value), data[pos+k] == value[k])
+
+// b must not live in the spare capacity of data (call sites pass distinct buffers)
+//@ func AppendLenEncStringBytes
+//@   mode int
+//@   requires !sameArray(data, b)
+//@   assigns data[len(data):cap(data)]
+//@   ensures case len:   len(ret0) == len(data) + encLen(uint64(len(b))) + len(b)
+//@   ensures case prefix: forall(k, 0, len(data), ret0[k] == old(data[k]))
+//@   ensures case enc:    decLen(ret0[len(data)]) == encLen(uint64(len(b))) && decVal(ret0, len(data)) == uint64(len(b)) && ret0[len(data)] != 0xfb
+//@   ensures case body:   forall(k, len(data) + encLen(uint64(len(b))), len(ret0), ret0[k] == old(b[k - len(data) - encLen(uint64(len(b)))]))
+
+//@ func WriteLenEncString
+//@   mode int
+//@   requires 0 <= pos && encLen(uint64(len(value))) + len(value) <= len(data) && pos <= len(data) - encLen(uint64(len(value))) - len(value)
+//@   assigns data[pos : pos + encLen(uint64(len(value))) + len(value)]
+//@   ensures case next:   ret0 == pos + encLen(uint64(len(value))) + len(value)
+//@   ensures case enc:    decLen(data[pos]) == encLen(uint64(len(value))) && decVal(data, pos) == uint64(len(value)) && data[pos] != 0xfb
+//@   ensures case body:   forall(k, 0, len(value), data[pos + encLen(uint64(len(value))) + k] == value[k])
